@@ -67,6 +67,16 @@ def cose_key_map(pub, alg, *, pad_to=None, extra=None):
     return m
 
 
+def reorder(m: dict, how) -> dict:
+    """the same map with its members written in another order (CBOR maps are unordered; authenticators differ)"""
+    ks = list(m)
+    if how == "reversed":
+        ks.reverse()
+    elif how == "rotated":
+        ks = ks[2:] + ks[:2]
+    return {k: m[k] for k in ks}
+
+
 def cose_key(pub, alg, **kw) -> bytes:
     return cbor2.dumps(cose_key_map(pub, alg, **kw))
 
@@ -127,13 +137,18 @@ class SimCredential:
     cred_id: bytes
     aaguid: bytes = b"\x00" * 16
     pad_to: Optional[int] = None
+    cose_order: Optional[str] = None          # "reversed" / "rotated": the COSE_Key's members written in another order
+    cose_extra: Optional[dict] = None         # additional members an authenticator may add to its COSE_Key
 
     @property
     def pub(self):
         return self.priv.public_key()
 
     def cose(self, alg=None, **kw) -> bytes:
-        return cose_key(self.pub, self.alg if alg is None else alg, pad_to=self.pad_to, **kw)
+        if self.cose_extra:
+            kw["extra"] = dict(self.cose_extra, **(kw.get("extra") or {}))
+        m = cose_key_map(self.pub, self.alg if alg is None else alg, pad_to=self.pad_to, **kw)
+        return cbor2.dumps(reorder(m, self.cose_order) if self.cose_order else m)
 
 
 def assertion(cred: SimCredential, *, rp_id: str, challenge: bytes, origin: str, flags: int = UP, counter: int = 1,
